@@ -2,6 +2,8 @@ package clus
 
 import (
 	"context"
+	"errors"
+	"sync/atomic"
 	"time"
 
 	ipfscluster "github.com/ipfs/ipfs-cluster"
@@ -21,13 +23,35 @@ const RPCProto = protocol.ID("/verif/rpc/1")
 
 // ConsSvc exposes a Consensus component as the "Consensus" RPC service with the
 // signatures of ipfs-cluster's ConsensusRPCAPI (needed for leader redirects).
-type ConsSvc struct{ C ipfscluster.Consensus }
+//
+// Fault injection for the redirect path: while FailN > 0 each LogPin/LogUnpin
+// call decrements it and returns an error, either without doing anything or,
+// with FailAfter set, after the operation was really carried out (the
+// response is lost).
+type ConsSvc struct {
+	C         ipfscluster.Consensus
+	FailN     atomic.Int32
+	FailAfter atomic.Bool
+	Failed    atomic.Int32 // calls answered with the injected error
+}
+
+func (s *ConsSvc) inject(do func() error) error {
+	if s.FailN.Load() > 0 {
+		s.FailN.Add(-1)
+		s.Failed.Add(1)
+		if s.FailAfter.Load() {
+			do()
+		}
+		return errors.New("injected: cluster RPC to the leader failed")
+	}
+	return do()
+}
 
 func (s *ConsSvc) LogPin(ctx context.Context, in *api.Pin, out *struct{}) error {
-	return s.C.LogPin(ctx, in)
+	return s.inject(func() error { return s.C.LogPin(ctx, in) })
 }
 func (s *ConsSvc) LogUnpin(ctx context.Context, in *api.Pin, out *struct{}) error {
-	return s.C.LogUnpin(ctx, in)
+	return s.inject(func() error { return s.C.LogUnpin(ctx, in) })
 }
 func (s *ConsSvc) AddPeer(ctx context.Context, in peer.ID, out *struct{}) error {
 	return s.C.AddPeer(ctx, in)
@@ -51,6 +75,7 @@ type RaftPeer struct {
 	Rec     *Recorder
 	DataDir string
 	Client  *rpc.Client
+	Svc     *ConsSvc
 }
 
 // RaftTweak adjusts the raft configuration of a peer.
@@ -76,7 +101,8 @@ func NewRaftPeer(h host.Host, dataDir string, peers []peer.ID, staging bool, twe
 	}
 	rec := NewRecorder()
 	srv := rpc.NewServer(h, RPCProto)
-	if err := srv.RegisterName("Consensus", &ConsSvc{C: cons}); err != nil {
+	svc := &ConsSvc{C: cons}
+	if err := srv.RegisterName("Consensus", svc); err != nil {
 		return nil, err
 	}
 	if err := srv.RegisterName("PinTracker", &TrackerRec{Rec: rec}); err != nil {
@@ -84,5 +110,5 @@ func NewRaftPeer(h host.Host, dataDir string, peers []peer.ID, staging bool, twe
 	}
 	cl := rpc.NewClientWithServer(h, RPCProto, srv)
 	cons.SetClient(cl)
-	return &RaftPeer{Host: h, Cons: cons, Cfg: cfg, Store: store, Rec: rec, DataDir: dataDir, Client: cl}, nil
+	return &RaftPeer{Host: h, Cons: cons, Cfg: cfg, Store: store, Rec: rec, DataDir: dataDir, Client: cl, Svc: svc}, nil
 }
